@@ -1171,6 +1171,30 @@ def stmt_templates():
         return [y]
     T.append(("case_without_default", t_case_nodefault))
 
+    def t_slices_only(m, dom, L, E1, E2, pfx):
+        # a signal driven ONLY through slices: one slice unconditionally, another conditionally, a third never (keeps its reset value):
+        # without the reset-value default at the top of the always @(*) block the text infers a latch
+        y = tgt(pfx, "y", 8, reset=0x41)
+        dom.__iadd__([y[0:3].eq(E1()), If(L["c"], y[3:6].eq(E2()))])
+        return [y]
+    T.append(("slices_only_partly_conditional", t_slices_only))
+
+    def t_case_wide_keys(m, dom, L, E1, E2, pfx):
+        # Case keys that do not fit the selector (never matched in simulation) next to keys that are equal to them modulo 2**n
+        y = tgt(pfx, "y", 6)
+        sel2 = L["a"][:2]
+        dom.__iadd__([Case(sel2, {1: y.eq(E1()), 6: y.eq(E2()), 7: y.eq(9), "default": y.eq(33)}),
+                      Case(L["d"][:3], {9: y[5].eq(1), 5: y[4].eq(L["c"])})])
+        return [y]
+    T.append(("case_keys_wider_than_selector", t_case_wide_keys))
+
+    def t_case_negative_key(m, dom, L, E1, E2, pfx):
+        # a NEGATIVE key on an unsigned selector: never matched in simulation (Python integers), equal to the selector modulo 2**n in Verilog
+        y = tgt(pfx, "y", 6)
+        dom.__iadd__([y.eq(E1()), Case(L["b"][:3], {-3: y[5].eq(1), 5: y[4].eq(L["c"]), "default": y[0].eq(1)})])
+        return [y]
+    T.append(("case_negative_key_on_unsigned_selector", t_case_negative_key))
+
     def t_last_wins(m, dom, L, E1, E2, pfx):
         y = tgt(pfx, "y", 6, True)
         dom.__iadd__([y.eq(E1()), If(L["c"], y.eq(E2())), y[1].eq(L["a"][0]), If(L["a"][1], y.eq(y.reset))])
